@@ -16,7 +16,10 @@ import numpy as np
 
 from lib import sim
 
-HBARS = [1.0, 0.5, 0.7, 3.0, 4.5, 0.98]
+# the property quantifies over every hbar > 0: conventions of order one and small / large ones (absolute tolerances applied to
+# hbar-scaled quantities show up only there)
+HBARS = [1.0, 0.5, 0.7, 3.0, 4.5, 0.98, 0.05, 0.1, 0.25, 4.0, 10.0]
+EXTREME = [0.05, 0.1, 0.25, 4.0, 10.0]
 MAX_WEIGHTS_FOCK = 12
 # thewalrus-backed Fock-basis numbers carry absolute noise of a few 1e-9 (entries that are exactly 0 at one hbar come out as
 # 3e-9 at another); real scaling mistakes are at the 1e-2 level
@@ -355,6 +358,8 @@ def rand_plan(rng, backend, n, length, fock_cutoff=6):
                     "fock_prob", "all_fock_probs", "reduced_dm", "quad_expectation", "quad_expectation",
                     "poly_quad_expectation", "wigner", "wigner", "trace", "x_quad_values", "p_quad_values", "hbar"]
         m = rng.choice(pool)
+        if n >= 4 and m in ("ket", "dm"):
+            m = "is_pure"                    # 4^n amplitudes and a numba compilation per mode count: keep the decision only
         c = dict(m=m)
         if m in ("is_coherent", "is_squeezed", "mean_photon", "quad_expectation", "wigner", "marginal", "x_quad_values",
                  "p_quad_values"):
@@ -367,6 +372,8 @@ def rand_plan(rng, backend, n, length, fock_cutoff=6):
             c["x"] = grid(rng, 5)
         if m in ("reduced_gaussian", "reduced_bosonic", "number_expectation", "parity_expectation", "reduced_dm"):
             c["modes"] = sub()
+            if m == "number_expectation" and n >= 4:
+                c["modes"] = c["modes"][:2]
             if m == "reduced_dm":
                 c["modes"] = c["modes"][:2]
                 c["cutoff"] = 4
@@ -558,6 +565,77 @@ def rand_program(rng, backend, n=None):
     if fock:
         spec["cutoff"] = 7 if n <= 2 else 5
     return spec
+
+
+def rand_symplectic(rng, k, passes=2):
+    X = np.eye(2 * k)
+    for _ in range(passes):
+        for m in range(k):
+            S, _ = sim.gate_symplectic("Sgate", [round(rng.uniform(-0.35, 0.35), 2), sim.angle(rng)])
+            E = np.eye(2 * k)
+            ix = [m, m + k]
+            E[np.ix_(ix, ix)] = S
+            X = E @ X
+        if k >= 2:
+            for _ in range(k - 1):
+                a, b = rng.sample(range(k), 2)
+                S, _ = sim.gate_symplectic("BSgate", [round(rng.uniform(0.2, 1.3), 2), sim.angle(rng)])
+                E = np.eye(2 * k)
+                ix = [a, b, a + k, b + k]
+                E[np.ix_(ix, ix)] = S
+                X = E @ X
+    return X
+
+
+def threshold_program(rng, backend):
+    """programs whose states sit near the ABSOLUTE tolerances of the code, in hbar = 2 units, a factor >= 10 away from each:
+    `Gaussian.__init__` purity (|det V - 1| < 1e-6), `BaseGaussianState` purity (1e-10), `is_squeezed` (1e-6),
+    `is_coherent` (1e-10); 1-6 modes.  Weakly mixed: det V - 1 in [1e-5, 1e-3]; pure: exactly; nearly identity:
+    squeezing 5e-6 (squeezed) or 5e-8 (not squeezed, not coherent)."""
+    n = rng.choice([1, 2, 3, 3, 4, 5, 6, 6])
+    k = n if rng.random() < 0.6 else rng.randint(1, n)
+    modes = rng.sample(range(n), k)
+    kind = rng.choice(["weakly-mixed", "weakly-mixed", "weakly-mixed", "pure", "thermal-diag", "nearly-identity", "direct"])
+    ops = []
+    if kind == "direct":
+        # the same states prepared gate by gate (state-object thresholds only)
+        for m in range(n):
+            u = rng.random()
+            if u < 0.4:
+                ops.append(dict(cls="Thermal", regs=[m], pars=[rng.choice([2.5e-6, 2.5e-5, 2.5e-4])]))
+            elif u < 0.7:
+                ops.append(dict(cls="Sgate", regs=[m], pars=[rng.choice([5e-6, 5e-8, 0.3]), rng.choice([0.0, 0.7])]))
+        for m in range(n - 1):
+            if rng.random() < 0.7:
+                ops.append(dict(cls="BSgate", regs=[m, m + 1], pars=[round(rng.uniform(0.3, 1.2), 2), sim.angle(rng)]))
+    else:
+        if kind == "weakly-mixed":
+            nbar = [rng.choice([0.0, 2.5e-6, 2.5e-5, 2.5e-4]) for _ in range(k)]
+            if not any(nbar):
+                nbar[rng.randrange(k)] = rng.choice([2.5e-6, 2.5e-5])
+            X = rand_symplectic(rng, k)
+        elif kind == "pure":
+            nbar = [0.0] * k
+            X = rand_symplectic(rng, k)
+        elif kind == "thermal-diag":
+            nbar = [rng.choice([2.5e-6, 1e-4, 0.3]) for _ in range(k)]
+            X = np.eye(2 * k)
+        else:
+            nbar = [0.0] * k
+            X = np.eye(2 * k)
+            for m in range(k):
+                r = rng.choice([5e-6, 5e-8, 0.0])
+                X[m, m], X[m + k, m + k] = math.exp(-r), math.exp(r)
+        V = X @ np.diag([1 + 2 * x for x in nbar] * 2) @ X.T
+        V = (V + V.T) / 2
+        r = [rng.choice([0.0, 0.0, round(rng.uniform(-0.6, 0.6), 2)]) for _ in range(2 * k)]
+        ops.append(dict(cls="Gaussian", regs=modes, pars=[V.tolist(), r]))
+    for _ in range(rng.randint(0, 3)):
+        op = sim.rand_gaussian_op(rng, n, allow_prep=False, allow_channel=False)
+        ops.append(op)
+    if rng.random() < 0.4:
+        ops.append(dict(cls=rng.choice(["Xgate", "Zgate"]), regs=[rng.randrange(n)], pars=[round(rng.uniform(-0.6, 0.6), 2)]))
+    return dict(n=n, ops=ops), kind
 
 
 def is_nontrivial(spec):
